@@ -841,6 +841,44 @@ func runC25(c *Ctx) {
 		} {
 			c.ob("C25.c housekeeping", fname(f)+": the decision to expire a message depends on "+need.what, c.pos(f.Pos()), leaves[need.leaf], "")
 		}
+		// (d) the server maximum is enforced whatever the record's own Expiry holds (0: none, -1: deferred by flow
+		// control, or a time): for an MQTT 5 record there is a path to the deletion that consults Expiry at most to
+		// ask whether it is set (a comparison of the field with 0) — φ-nodes resolved along the path
+		var body *ssa.BasicBlock
+		for _, b := range f.Blocks {
+			if (b.Comment == "rangeindex.body" || b.Comment == "rangeiter.body") && body == nil {
+				body = b
+			}
+		}
+		if body != nil && del != nil {
+			isExpiryLoad := func(v ssa.Value) bool {
+				if u, ok := v.(*ssa.UnOp); ok {
+					if fa, ok := u.X.(*ssa.FieldAddr); ok && fieldName(fa.X.Type(), fa.Field) == "Expiry" {
+						return true
+					}
+				}
+				if fl, ok := v.(*ssa.Field); ok && fieldName(fl.X.Type(), fl.Field) == "Expiry" {
+					return true
+				}
+				return false
+			}
+			ok := existsResolvedPath(f, body, del, func(cond ssa.Value, res func(ssa.Value) ssa.Value, truth bool) bool {
+				if t, n := normCond(cond); strings.HasSuffix(t, ".ProtocolVersion == 5") {
+					return truth != n // the record was published with MQTT 5
+				}
+				if !dependsOnField(cond, res, "Expiry", map[ssa.Value]bool{}) {
+					return true
+				}
+				if b, isB := cond.(*ssa.BinOp); isB {
+					if x, _, k, isCmp := zeroOneCompare(b); isCmp && k == 0 && isExpiryLoad(res(x)) {
+						return true
+					}
+				}
+				return false
+			})
+			c.ob("C25.d maximum-independent-of-own-expiry", fname(f)+": an MQTT 5 record older than the server maximum is deleted whatever its own Expiry holds (path that asks at most whether Expiry is set)", c.pos(del.Pos()), ok,
+				"every path to the deletion compares the record's Expiry with a time: a record whose Expiry is the -1 'deferred' marker (or 0) is never expired by the server maximum")
+		}
 	}
 	if f := c.fn("mqtt", "(*Server).processPublish"); f != nil {
 		sts := storesTo(f, "pk.Expiry")
